@@ -20,6 +20,7 @@ import (
 
 type Case struct {
 	G      *cfgm.G
+	Named  bool // list parameters declared with named slice types (assignable, not identical)
 	Inputs [][]int
 	Lox    string `json:",omitempty"`
 	Detail string `json:",omitempty"`
@@ -48,7 +49,7 @@ func Gen(rt *rapid.T, run *ev.Run, nInputs int, nullableHeavy bool) *Case {
 			continue
 		}
 		seen := map[string]bool{}
-		c := &Case{G: g}
+		c := &Case{G: g, Named: rapid.Bool().Draw(rt, "named-slice-params")}
 		for k := 0; k < nInputs; k++ {
 			w := cfggen.Sentence(rt, p, rapid.IntRange(2, 8).Draw(rt, "b"))
 			if len(w) > 40 {
@@ -98,7 +99,7 @@ func Eval(run *ev.Run, cases []*Case, m Mode, count bool, prop string) ([]Verdic
 	mk := func(onb bool) ([]*pbatch.Case, []*pbatch.Out, error) {
 		pc := make([]*pbatch.Case, len(cases))
 		for i, c := range cases {
-			pc[i] = &pbatch.Case{G: c.G, Inputs: c.Inputs, OnBounds: onb}
+			pc[i] = &pbatch.Case{G: c.G, Inputs: c.Inputs, OnBounds: onb, NamedSlices: c.Named}
 		}
 		outs, err := pbatch.Run(pc, true)
 		return pc, outs, err
@@ -256,10 +257,10 @@ func Shrink(run *ev.Run, c *Case, m Mode, prop string) *Case {
 	cands := func(c *Case) []*Case {
 		var out []*Case
 		for _, g := range cfggen.Reductions(c.G) {
-			out = append(out, &Case{G: g, Inputs: c.Inputs})
+			out = append(out, &Case{G: g, Named: c.Named, Inputs: c.Inputs})
 		}
 		for _, w := range cfggen.InputReductions(c.Inputs[0]) {
-			out = append(out, &Case{G: c.G, Inputs: [][]int{w}})
+			out = append(out, &Case{G: c.G, Named: c.Named, Inputs: [][]int{w}})
 		}
 		return out
 	}
@@ -364,7 +365,7 @@ func RunCheck(run *ev.Run, prop string, m Mode, nQuick, nThorough int, nullableH
 			if vs[i].Bad == nil {
 				continue
 			}
-			fc := &Case{G: c.G, Inputs: [][]int{vs[i].Bad}, Lox: c.Lox}
+			fc := &Case{G: c.G, Named: c.Named, Inputs: [][]int{vs[i].Bad}, Lox: c.Lox}
 			detail := vs[i].Detail
 			if len(vs[i].Bad) > 0 || true {
 				fc = Shrink(run, fc, m, prop)
